@@ -116,6 +116,7 @@ def main(tier, seed):
                "status_base": t[4], "status_variant": t[5], "program": name, "source": src, "options": v, "vector": vec_name(v),
                "tail_call": v["tail_call_optimization"], "push_pop": v["use_push_pop_functions"],
                "tail_after_call": tail_after_call(r), "uses_chip_stack": uses_chip_stack(src),
+               "tail_end_label_unterminated": pipeline.end_label_unterminated(r) if v["tail_call_optimization"] else False,
                "inline": v["inline_functions"], "base_code": base["code"], "variant_code": r["code"], "oracle_seed": pipeline.SEEDS[k]}
         if run.classify(rec) is None and nshown < 4:
             nshown += 1
